@@ -6,6 +6,10 @@
  *   {"e":"scn","k":K}                    scenario K starts on this rank
  *   {"e":"visit","m":..,"n":..,"tu":..,"sv":..,"dv":..}   the operator ran on tile (m,n): tile-level uplo it was given,
  *                                         first element of the (source) tile, first element of the destination tile
+ *   {"e":"counts","m":M,"n0":N0,"c":[..],"wd":W}   op=mapcount (map operator on many tiles, cheap logging): number of
+ *                                         operator invocations this rank made on tiles (M,N0), (M,N0+1), ... (one record
+ *                                         per chunk of <= 400 tiles of a tile row, only chunks with an invocation or a
+ *                                         local tile); W = how many of them did not see the tile's own data
  *   {"e":"result","calls":..,"vals":[..]} reductions (rank 0): number of operator invocations, reduced values
  *   {"e":"done","k":K}                   the taskpool completed on this rank (parsec_context_wait returned)
  */
@@ -47,6 +51,24 @@ static int map_op(struct parsec_execution_stream_s *es, const void *src, void *d
     va_start(ap, op_data); m = va_arg(ap, int); n = va_arg(ap, int); va_end(ap);
     int sv = src ? ((const int*)src)[0] : -1, dv = dst ? ((int*)dst)[0] : -1;
     vt_ev("\"e\":\"visit\",\"m\":%d,\"n\":%d,\"tu\":\"full\",\"sv\":%d,\"dv\":%d,\"rank\":%d", m, n, sv, dv, rank);
+    if( dst ) ((int*)dst)[0] = sv + 1;
+    return 0;
+}
+
+/* parsec_operator_t for op=mapcount: counts the invocations per tile in memory (dst = src + 1 as map_op) */
+static int *cnt_visits, *cnt_wrong, cnt_mt, cnt_nt;
+static int count_op(struct parsec_execution_stream_s *es, const void *src, void *dst, void *op_data, ...)
+{
+    va_list ap; int m, n;
+    (void)es; (void)op_data;
+    va_start(ap, op_data); m = va_arg(ap, int); n = va_arg(ap, int); va_end(ap);
+    int sv = src ? ((const int*)src)[0] : -1, dv = dst ? ((int*)dst)[0] : -1;
+    if( m < 0 || m >= cnt_mt || n < 0 || n >= cnt_nt ) {    /* not a tile of the matrix: log it as such */
+        vt_ev("\"e\":\"visit\",\"m\":%d,\"n\":%d,\"tu\":\"full\",\"sv\":%d,\"dv\":%d,\"rank\":%d", m, n, sv, dv, rank);
+        return 0;
+    }
+    __sync_fetch_and_add(&cnt_visits[m * cnt_nt + n], 1);
+    if( sv != m * 100 + n + 1 ) __sync_fetch_and_add(&cnt_wrong[m * cnt_nt + n], 1);
     if( dst ) ((int*)dst)[0] = sv + 1;
     return 0;
 }
@@ -126,17 +148,39 @@ int main(int argc, char **argv)
         ncalls = 0;
         if( !strcmp(op, "apply") ) {
             parsec_apply(ctx, uplo, &A.super, apply_op, NULL);
-        } else if( !strcmp(op, "map") ) {
+        } else if( !strcmp(op, "map") || !strcmp(op, "mapcount") ) {
+            int counted = !strcmp(op, "mapcount");
+            if( counted ) {
+                cnt_mt = mt; cnt_nt = nt;
+                cnt_visits = (int*)calloc((size_t)mt * nt, sizeof(int));
+                cnt_wrong = (int*)calloc((size_t)mt * nt, sizeof(int));
+            }
             parsec_matrix_block_cyclic_init(&B, PARSEC_MATRIX_INTEGER, PARSEC_MATRIX_TILE, rank, mb, mb, mt * mb, nt * mb,
                                             0, 0, mt * mb, nt * mb, P, Q, kp, kq, 0, 0);
             B.mat = calloc((size_t)B.super.nb_local_tiles * B.super.bsiz + 1, sizeof(int));
             parsec_data_collection_set_key(&B.super.super, "B");
             fill(&B, -1);
-            tp = parsec_map_operator_New(&A.super, &B.super, map_op, NULL);
+            tp = parsec_map_operator_New(&A.super, &B.super, counted ? count_op : map_op, NULL);
             parsec_context_add_taskpool(ctx, tp);
             parsec_context_start(ctx);
             parsec_context_wait(ctx);
             parsec_taskpool_free(tp);
+            if( counted ) {
+                enum { CHUNK = 400 };
+                char *cb = (char*)malloc(CHUNK * 12 + 64);
+                for( int m = 0; m < mt; m++ ) for( int n0 = 0; n0 < nt; n0 += CHUNK ) {
+                    int len = nt - n0 < CHUNK ? nt - n0 : CHUNK, o = 0, wd = 0, any = 0;
+                    for( int j = 0; j < len; j++ ) {
+                        int c = cnt_visits[m * nt + n0 + j];
+                        any |= c || (int)A.super.super.rank_of(&A.super.super, m, n0 + j) == rank;
+                        wd += cnt_wrong[m * nt + n0 + j];
+                        o += sprintf(cb + o, "%s%d", j ? "," : "", c);
+                    }
+                    if( any ) vt_raw("{\"e\":\"counts\",\"m\":%d,\"n0\":%d,\"c\":[%s],\"wd\":%d,\"rank\":%d}", m, n0, cb, wd, rank);
+                }
+                free(cb); free(cnt_visits); free(cnt_wrong);
+                cnt_visits = cnt_wrong = NULL;
+            }
             free(B.mat);
             parsec_tiled_matrix_destroy(&B.super);
         } else if( !strcmp(op, "reduce_col") || !strcmp(op, "reduce_row") ) {
